@@ -40,7 +40,9 @@ fn make_case(seq: &[usize]) -> Case {
     for (i, s) in seq.iter().enumerate() {
         item.members.push(member(*s, i));
     }
-    let files = vec![ProjFile::from_doc("obs", Document::new("p", item))];
+    // every third sequence in the commented layout
+    let commented = seq.iter().sum::<usize>() % 3 == 2;
+    let files = vec![ProjFile::from_doc_styled("obs", Document::new("p", item), commented)];
     let exp = expect_observed(&files, 0);
     let doc = files[0].doc.as_ref().unwrap();
     let r = files[0].rendered.as_ref().unwrap();
